@@ -228,14 +228,15 @@ theorem C03_law_filterExc_clean (d k : ExcSel) (s : Strm)
 
 /-- `groupby key` (with the documented materialising `map`) on a cleanly ending stream, `key` not
     raising: the output is a list of `(key, members)` pairs with non-empty member lists of constant
-    key whose concatenation is the input -/
+    key whose concatenation is the input, and neighbouring groups have different keys (the runs
+    are maximal) — which determines the grouping uniquely -/
 theorem C03_law_groupby (key : Val → Res) (k : Val → Val) (vals : List Val)
     (hk : ∀ v ∈ vals, key v = .ok (k v)) :
     ∃ gs : List (Val × List Val),
       sem (.groupby key) ⟨vals, Option.none⟩ = ⟨gs.map (fun g => Val.pair g.1 (Val.ofList g.2)), Option.none⟩ ∧
-      (gs.map (·.2)).flatten = vals ∧ ∀ g ∈ gs, g.2 ≠ [] ∧ ∀ x ∈ g.2, k x = g.1 := by
-  obtain ⟨gs, h1, h2, h3, h4⟩ := semGroup_shape key k vals hk Option.none (by simp)
-  refine ⟨gs, ?_, by simpa using h3, h4⟩
+      (gs.map (·.2)).flatten = vals ∧ (∀ g ∈ gs, g.2 ≠ [] ∧ ∀ x ∈ g.2, k x = g.1) ∧ adjDistinct gs := by
+  obtain ⟨gs, h1, h2, h3, h4, h5, _⟩ := semGroup_shape key k vals hk Option.none (by simp)
+  refine ⟨gs, ?_, by simpa using h3, h4, h5⟩
   simp only [sem]
   rcases hs : semGroup key Option.none vals Option.none with ⟨v, e⟩
   rw [hs] at h1 h2
